@@ -7,11 +7,14 @@ Local Open Scope N_scope.
 (* hashbrown's own bookkeeping: growth_left + items never exceeds the bucket capacity; the
    element filed under k has key k *)
 Definition hb_ok (t : hb) : Prop :=
-  hgl t + hlen t <= bcap (hB t) /\ (forall k e, hel t !! k = Some e -> ek e = k).
+  hgl t + hn t <= bcap (hB t) /\
+  hn t = N.of_nat (size (hel t)) /\
+  (forall k e, hel t !! k = Some e -> ek e = k).
 
 (* I-iter, I-disj, I-head for a pending resize *)
 Definition old_ok (R : N) (t : hb) (o : old) : Prop :=
   oit o = olen o /\
+  ocnt o = N.of_nat (length (orem o)) /\
   NoDup (map ek (orem o)) /\
   (forall e, e ∈ orem o -> hel t !! ek e = None) /\
   need (olen o) R <= hgl t.
@@ -132,39 +135,44 @@ Proof.
   apply elem_of_list_fmap. exists e. auto.
 Qed.
 
-Lemma olen_0 o : olen o = 0 -> orem o = [].
-Proof. unfold olen. destruct (orem o); [reflexivity|cbn; lia]. Qed.
-Lemma olen_Old B l i : olen (Old B l i) = N.of_nat (length l).
-Proof. reflexivity. Qed.
+Lemma ocnt_0 o : ocnt o = N.of_nat (length (orem o)) -> olen o = 0 -> orem o = [].
+Proof. unfold olen. intros -> H. destruct (orem o); [reflexivity|cbn in H; lia]. Qed.
 
 (* ------------------------------------------------------------------ hb facts *)
 
-Lemma hlen_insert_None t k e : hel t !! k = None -> N.of_nat (size (<[k := e]> (hel t))) = hlen t + 1.
-Proof. intros H. rewrite map_size_insert_None by exact H. unfold hlen. lia. Qed.
+Lemma size_insert_None (m : gmap N elem) k e : m !! k = None -> N.of_nat (size (<[k := e]> m)) = N.of_nat (size m) + 1.
+Proof. intros H. rewrite map_size_insert_None by exact H. lia. Qed.
 
-Lemma hlen_insert_Some t k e e' : hel t !! k = Some e' -> N.of_nat (size (<[k := e]> (hel t))) = hlen t.
+Lemma size_insert_Some (m : gmap N elem) k e e' : m !! k = Some e' -> N.of_nat (size (<[k := e]> m)) = N.of_nat (size m).
 Proof. intros H. rewrite map_size_insert_Some by (rewrite H; eauto). reflexivity. Qed.
 
-Lemma hlen_delete_Some t k e : hel t !! k = Some e -> N.of_nat (size (delete k (hel t))) + 1 = hlen t.
+Lemma size_delete_Some (m : gmap N elem) k e : m !! k = Some e -> N.of_nat (size (delete k m)) + 1 = N.of_nat (size m).
 Proof.
-  intros H. rewrite map_size_delete, H. unfold hlen.
-  assert (size (hel t) <> 0)%nat.
+  intros H. rewrite map_size_delete, H.
+  assert (size m <> 0)%nat.
   { intros Hz. apply map_size_empty_inv in Hz. rewrite Hz in H. rewrite lookup_empty in H. discriminate. }
   cbn. lia.
 Qed.
 
 Lemma hb_ok_new : hb_ok hb_new.
 Proof.
-  split.
-  - unfold hlen, hb_new. cbn [hgl hB hel]. rewrite map_size_empty. change (bcap 1) with 0. lia.
+  split; [|split].
+  - unfold hb_new. cbn [hgl hB hn]. change (bcap 1) with 0. lia.
+  - reflexivity.
+  - intros k e H. cbn in H. rewrite lookup_empty in H. discriminate.
+Qed.
+
+Lemma hb_ok_empty B : hb_ok (hb_empty B).
+Proof.
+  split; [|split].
+  - unfold hb_empty. cbn [hgl hB hn]. lia.
+  - reflexivity.
   - intros k e H. cbn in H. rewrite lookup_empty in H. discriminate.
 Qed.
 
 Lemma Inv_new R : 0 < R -> Inv R rt_new.
 Proof. intros H. split; [exact H|]. split; [apply hb_ok_new|exact I]. Qed.
 
-Lemma hlen_empty B g : hlen (HB B g ∅) = 0.
-Proof. reflexivity. Qed.
 
 (* abs with a pending resize, as a lookup *)
 Lemma rt_abs_lookup R r k :
@@ -178,18 +186,18 @@ Proof.
   destruct (hel (main r) !! k) as [e|] eqn:E.
   - apply lookup_union_Some_l. exact E.
   - rewrite lookup_union_r by exact E. destruct (lo r) as [o|].
-    + destruct Ho as (_ & Hnd & _). apply list_to_emap_lookup. exact Hnd.
+    + destruct Ho as (_ & _ & Hnd & _). apply list_to_emap_lookup. exact Hnd.
     + apply lookup_empty.
 Qed.
 
 Lemma Inv_len R r : Inv R r -> N.of_nat (size (rt_abs r)) = rt_len r.
 Proof.
-  intros (_ & _ & Ho). unfold rt_abs, rt_len. destruct (lo r) as [o|].
-  - destruct Ho as (_ & Hnd & Hdis & _).
+  intros (_ & (_ & Hn & _) & Ho). unfold rt_abs, rt_len, hlen. destruct (lo r) as [o|].
+  - destruct Ho as (_ & Hc & Hnd & Hdis & _).
     rewrite map_size_disj_union.
-    + rewrite size_list_to_emap by exact Hnd. unfold hlen, olen. lia.
+    + rewrite size_list_to_emap by exact Hnd. unfold olen. lia.
     + apply map_disjoint_spec. intros k e1 e2 H1 H2.
       apply list_to_emap_key in H2 as [Hk Hin]; [|exact Hnd].
       specialize (Hdis _ Hin). rewrite Hk in Hdis. congruence.
-  - rewrite (right_id_L ∅ (∪)). unfold hlen. lia.
+  - rewrite (right_id_L ∅ (∪)). lia.
 Qed.
